@@ -6,6 +6,30 @@ func init() {
 	vfHarnesses["H_C13_oneshot"] = H_C13_oneshot
 	vfHarnesses["H_C13_split"] = H_C13_split
 	vfHarnesses["H_C13_confirm_long"] = H_C13_confirm_long
+	vfHarnesses["H_C13_reset"] = H_C13_reset
+}
+
+// H_C13_reset: a state that has hashed n bytes is Reset; what it reports then, without any Write,
+// after an empty Write, and after a Write of m bytes, is the reference value of exactly what was
+// written since the Reset (nothing of the previous message survives).
+func H_C13_reset() {
+	n := vfParam("n")
+	m := vfParam("m")
+	x := vfBytes("x", n)
+	y := vfBytes("y", m)
+	var h XXHZero
+	h.Write(x)
+	_ = h.Sum32()
+	h.Reset()
+	vfAssert("reset-then-sum-is-empty-hash", h.Sum32() == refXXH32(nil))
+	s := h.Sum(nil)
+	e := refXXH32(nil)
+	vfAssert("reset-then-sum-bytes", vfAnd(len(s) == 4, vfAnd(vfAnd(s[0] == byte(e), s[1] == byte(e>>8)), vfAnd(s[2] == byte(e>>16), s[3] == byte(e>>24)))))
+	h.Write(nil)
+	vfAssert("reset-empty-write-sum", h.Sum32() == refXXH32(nil))
+	h.Write(y)
+	vfAssert("reset-then-write-sum", h.Sum32() == refXXH32(y))
+	vfReach("end")
 }
 
 // H_C13_oneshot: ChecksumZero(x) == refXXH32(x) for every x of length n.
